@@ -480,3 +480,114 @@ func c12IdleRun(t *testing.T) func(sc rigScenario) (vk.Result, error) {
 func TestVerif_C12_Inactivity(t *testing.T) {
 	vk.Run(t, "C12", "Inactivity", c12IdleGen, c12IdleRun(t))
 }
+
+// ---- OpenStream racing with session closure, through the schedule point openStream.beforeRegister ----
+
+type c12OpenRace struct {
+	Cfg       rigCfg
+	Pre       []rigOp
+	CloseKind string // "local" (Session.Close on the opener's side) | "reset" | "remote" (peer closes, notice delivered)
+}
+
+func c12OpenRaceRun(t *testing.T) func(sc c12OpenRace) (vk.Result, error) {
+	return func(sc c12OpenRace) (vk.Result, error) {
+		res := vk.Result{NonTrivial: true, Labels: []string{"close=" + sc.CloseKind}}
+		var verr error
+		berr := vk.Bubble(t, func() {
+			r, err := newRig(t, sc.Cfg)
+			if err != nil {
+				verr = fmt.Errorf("harness: %v", err)
+				return
+			}
+			defer r.teardown()
+			for _, op := range sc.Pre {
+				if verr = r.step(op); verr != nil {
+					return
+				}
+			}
+			if r.sesh[sideC].IsClosed() {
+				return
+			}
+			h := vArm("openStream.beforeRegister")
+			defer h.Release()
+			type openRes struct {
+				st  *Stream
+				err error
+			}
+			och := make(chan openRes, 1)
+			go func() {
+				st, err := r.sesh[sideC].OpenStream()
+				och <- openRes{st, err}
+			}()
+			synctest.Wait()
+			if !h.IsReached() {
+				// OpenStream returned before the point (e.g. singleplex refusal): nothing to race
+				h.Release()
+				return
+			}
+			// the session dies while the opener is between its closed-check and the registration of the stream
+			switch sc.CloseKind {
+			case "local":
+				done := make(chan struct{})
+				go func() { r.sesh[sideC].Close(); close(done) }()
+				synctest.Wait()
+			case "reset":
+				r.links[0].Reset()
+				synctest.Wait()
+			default:
+				go r.sesh[sideS].Close()
+				synctest.Wait()
+				r.deliverEverything()
+				synctest.Wait()
+			}
+			if !r.sesh[sideC].IsClosed() {
+				verr = vk.Violatef("client session still open after %s closure", sc.CloseKind)
+				return
+			}
+			h.Release()
+			synctest.Wait()
+			var o openRes
+			select {
+			case o = <-och:
+			default:
+				verr = vk.Violatef("OpenStream did not return after the session was closed")
+				return
+			}
+			if o.err != nil {
+				res.Labels = append(res.Labels, "open-refused")
+				return
+			}
+			// a stream was handed out on a dead session: it must behave as a dead stream
+			rch := make(chan error, 1)
+			go func() {
+				_, err := o.st.Read(make([]byte, 16))
+				rch <- err
+			}()
+			synctest.Wait()
+			select {
+			case err := <-rch:
+				if err == nil {
+					verr = vk.Violatef("Read on a stream of a closed session returned data")
+				}
+				res.Labels = append(res.Labels, "open-succeeded-stream-dead")
+			default:
+				verr = vk.ViolateSig("open-after-close-leaks-stream", "OpenStream racing with %s session closure returned a stream whose Read blocks for ever: the stream was registered after the session had closed every stream", sc.CloseKind)
+				o.st.recvBuf.Close() // let the parked reader go so that the bubble can end
+			}
+		})
+		if verr == nil && berr != nil {
+			verr = vk.Violatef("goroutines left blocked or crashed: %v", firstLine(berr.Error()))
+		}
+		return res, verr
+	}
+}
+
+func TestVerif_C12_OpenRace(t *testing.T) {
+	vk.Run(t, "C12", "OpenRace", func(rt *rapid.T) c12OpenRace {
+		cfg, ops, _ := c12GenBase(rt, rapid.Bool().Draw(rt, "unordered"), 8)
+		if cfg.Singleplex {
+			ops = nil // a singleplex session refuses a second stream anyway: race the very first OpenStream
+		}
+		return c12OpenRace{Cfg: cfg, Pre: ops, CloseKind: rapid.SampledFrom([]string{"local", "reset", "remote"}).Draw(rt, "closekind")}
+	}, c12OpenRaceRun(t))
+}
